@@ -97,6 +97,11 @@ func (*cache).Set
   ensures stored: (len(key) + len(val) <= c.conf.MaxElementSize &&
     (c.conf.EnableLRU || !(old(c.size) + len(key) + len(val) > c.conf.MaxSize || old(len(c.items)) == c.conf.MaxCount))) ==>
     haskey(c.items, strid(key)) && mapget(c.items, strid(key)).value == val && mapget(c.items, strid(key)).key == key
+  ensures size_accounting_without_eviction: len(key) + len(val) <= c.conf.MaxElementSize &&
+    !(old(c.size) + len(key) + len(val) > c.conf.MaxSize || old(len(c.items)) == c.conf.MaxCount) ==>
+    (let prev = old(haskey(c.items, strid(key))) in
+     let it = old(mapget(c.items, strid(key))) in
+     (c.size - (old(c.size) + len(key) + len(val) - (prev ? len(it.key) + len(it.value) : 0))) % 18446744073709551616 == 0)
   ensures without_lru_reports_replacement: !c.conf.EnableLRU && haskey(c.items, strid(key)) && !(len(key) + len(val) > c.conf.MaxElementSize) &&
     !(old(c.size) + len(key) + len(val) > c.conf.MaxSize || old(len(c.items)) == c.conf.MaxCount) ==> (result0 <==> old(haskey(c.items, strid(key))))
   loop 0
@@ -106,6 +111,9 @@ func (*cache).Set
       !(((c.size + addSize < 18446744073709551616) ? c.size + addSize : c.size + addSize - 18446744073709551616) > c.conf.MaxSize ||
         len(c.items) == c.conf.MaxCount)
     invariant seq_first_iteration_state: !c.conf.EnableLRU ==> c.items == old(c.items) && c.size == old(c.size) &&
+      (forall k: (haskey(c.items, k) <==> old(haskey(c.items, k))) && mapget(c.items, k) == old(mapget(c.items, k)))
+    invariant seq_untouched_unless_evicting: !(old(c.size) + addSize > c.conf.MaxSize || old(len(c.items)) == c.conf.MaxCount) ==>
+      c.items == old(c.items) && c.size == old(c.size) && len(c.items) == old(len(c.items)) &&
       (forall k: (haskey(c.items, k) <==> old(haskey(c.items, k))) && mapget(c.items, k) == old(mapget(c.items, k)))
     assume_invariant list_inv: monitor_assumed(c, "lock")
 @*/
